@@ -108,3 +108,11 @@ CLAIMS['C08'] = dict(
           'chunk header; the footer parser enforces agreement of its three counts. Completeness (every valid xorb accepted) and lz4_flex internals are not decided; panic-freedom is decided only for the allocation and '
           'index sites covered, not for arithmetic.'),
     note='Advisory (outside the named entry points): CasObjectInfoV1::deserialize_only_boundaries_section resizes by an unsanitised declared count.')
+CLAIMS['C09'] = dict(
+    technique='static analysis: edge dominance (full-hash identity), path-sensitive symbolic evaluation of record-count formulas across sibling functions, reader/writer token-table agreement, definite assignment, container-mutation/size pairing',
+    text=('Decides: record identity after a truncated-prefix lookup is decided by the full 256-bit hash and a full candidate buffer is an error; every function that computes how many 48-byte records follow a file header '
+          'evaluates symbolically to n*(1+V)+E on every path (seven sibling sites) and the record (de)serialisers follow that table; header, footer and the six fixed-size records are written and read with the same '
+          '(width, field) token table whose widths sum to the struct size; every shard writer assigns each footer offset/count on every path before writing the footer, accumulates the byte totals for every copied record, '
+          'and sorts chunk rows before writing; the in-memory size accounting is replace-aware and counts chunk rows per chunk. These hold for every table size, key distribution and flag combination. '
+          'The interpolation search arithmetic is not decided.'),
+    note='Padding fields (_unused, _buffer) may be skipped by readers that read the whole fixed-size record first.')
